@@ -210,6 +210,59 @@ def run_grammar(scr, verdict, binp, rows, stats, tag, with_items, with_resources
     return m
 
 
+def regen_layouts(scr, verdict, binp, prop, stats):
+    """Regeneration in both output layouts (flat, and under the manifest's package root) with a hand-written custom
+    typeref and user files beside the generated code: they survive byte for byte, no generated twin of the custom
+    typeref appears, the second generation reproduces the first, and the result compiles."""
+    for layout in ("flat", "package-root"):
+        top = scr.sub("regen-%s-%s" % (prop.lower(), layout))
+        moddir = os.path.join(top, "verifharness")
+        os.makedirs(moddir)
+        mod, ver, path = MODS["v2"]
+        with open(os.path.join(moddir, "go.mod"), "w") as f:
+            f.write("module verifharness\n\ngo 1.21\n\nrequire %s %s\n\nreplace %s => %s\n" % (mod, ver, mod, path))
+        shutil.copy(os.path.join(path, "go.sum"), os.path.join(moddir, "go.sum"))
+        root = "verifharness/gen"
+        types = list(grammar.BASE_TYPES) + [grammar.record("UsesCT", [grammar.F("when", grammar.R("CT")), grammar.F("maybe", grammar.R("CT"), optional=True),
+                                                                        grammar.F("many", {"array": grammar.R("CT")}, optional=True)])]
+        m = {"packageRoot": root, "inputDataTypes": types, "dependencyDataTypes": [], "resources": []}
+        mf = os.path.join(top, "manifest.json")
+        json.dump(m, open(mf, "w"))
+        gendir = os.path.join(moddir, "gen")                       # where the generated code ends up in both layouts
+        outarg, extra = (gendir, []) if layout == "flat" else (top, ["withPackageRoot"])
+        os.makedirs(os.path.join(gendir, "gr"))
+        foreign = dict(USER_FILES)
+        foreign[grammar.CUSTOM_TYPEREF_FILE] = grammar.CUSTOM_TYPEREF_SRC
+        for p, c in foreign.items():
+            with open(os.path.join(gendir, p), "w") as f:
+                f.write(c)
+        runs = []
+        for k in range(2):
+            pr = subprocess.run([binp, mf, outarg] + extra, stdout=subprocess.PIPE, stderr=subprocess.STDOUT, text=True, errors="replace", timeout=600)
+            stats["generator_runs"] += 1
+            if pr.returncode != 0:
+                verdict.add("%s/regen/%s/generator-failed" % (prop, layout), "generation %d failed: %s" % (k + 1, pr.stdout[-1200:]), dict(layout=layout))
+                break
+            runs.append(digest(gendir))
+        if len(runs) < 2:
+            continue
+        own = lambda d: {k: v for k, v in d.items() if k.endswith(".gr.go") or k.endswith(".gr.json")}
+        if own(runs[0]) != own(runs[1]):
+            verdict.add("%s/regen/%s/differs" % (prop, layout), "regenerating over the previous output gives different generated files: %s" % sorted(
+                set(x[0] for x in set(own(runs[0]).items()) ^ set(own(runs[1]).items())))[:6], dict(layout=layout))
+        for p, c in foreign.items():
+            fp = os.path.join(gendir, p)
+            if not os.path.exists(fp) or open(fp).read() != c:
+                verdict.add("%s/regen/%s/foreign-file-touched/%s" % (prop, layout, p), "the generator removed or changed %s, which it does not own" % p, dict(layout=layout, file=p))
+        twin = grammar.CUSTOM_TYPEREF_FILE[:-3] + ".gr.go"
+        if twin in runs[1]:
+            verdict.add("%s/regen/%s/custom-typeref-generated" % (prop, layout), "the hand-written custom typeref was not located: %s was generated beside it" % twin, dict(layout=layout))
+        rc, out = go_build(moddir)
+        if rc != 0:
+            verdict.add("%s/regen/%s/does-not-compile" % (prop, layout), "the regenerated tree does not build: " + out[-800:], dict(layout=layout))
+        shutil.rmtree(top, ignore_errors=True)
+
+
 def report_compile(verdict, gen, what, out, m, tag):
     """One violation per failing generated file (keyed by what the file is about, not by its index)."""
     by_file = {}
@@ -371,6 +424,7 @@ def run(tier, seed, replay):
     phases["grammar-resources"] = round(time.time() - t1, 1)
     t1 = time.time()
     run_checked_in(scr, verdict, bins["v2"], stats)
+    regen_layouts(scr, verdict, bins["v2"], "C12", stats)
     phases["checked-in"] = round(time.time() - t1, 1)
     cov["phase_s"] = phases
     cov.update(stats)
